@@ -7,12 +7,16 @@ PROP_V = ["Props/Properties_C05cv.v", "Props/Properties_C05mu.v"]
 GEN_MODULES = ["Consts", "Sites"]
 FLOW_FILES = ['cv.c', 'mu_wait.c', 'sem_wait.c']
 REPLAY_HINT = "VRT_SEED=<seed> [VRT_MODE=<m>] _work/h/cv_mix | muwait_mix | cancel_mix"
-PARTIAL = ["the logic of nsync_sem_wait_with_cancel_ (sem_wait.c:39-73: the minimum of the deadline and the note's expiry, `deadline_is_nearer` with its strict `<`, notify-on-expiry) is NOT modelled step by step: CvModel and MuWaitModel take its result as a guarded choice (ETIMEDOUT only with clock >= deadline, ECANCELED only with the note notified); that function is covered by the cancel_mix / cv_mix oracles and the flow pin of sem_wait.c only",
-           "C05_reason / C05_mode carry model guards to the log (ETIMEDOUT/ECANCELED are produced under exactly those guards; `held` and the logged mode are set in the same abstract acquire step): their weight is on the lock-step tie; the mode in which nsync_mu_lock_slow_ re-acquires (cv.c:299) is inside CvModel's abstract mutex -- the mu_wait half (C05mu_return over MuWaitModel) models the re-acquisition step by step",
-           "the mu_wait half is C05mu_return over MuWaitModel (mode on return, 0 iff the condition is true, ETIMEDOUT only with an earlier clock "
-           ">= deadline, ECANCELED only with a notified note); the cv half is Properties_C05cv over CvModel when present in the tree; "
-           "'once the deadline has passed or the note is notified the call needs no further wake-up' is decided by the stuck detector and the "
-           "cancel_mix oracle (no ETIMEDOUT when the cancellation had completed before the deadline), not by a theorem"]
+PARTIAL = ["the logic of nsync_sem_wait_with_cancel_ (sem_wait.c:39-73: the minimum of the deadline and the note's expiry, `deadline_is_nearer` with its strict `<`, "
+           "notify-on-expiry) is NOT modelled step by step: CvModel and MuWaitModel take its result as a guarded choice (ETIMEDOUT only with clock >= deadline, "
+           "ECANCELED only with the note notified); that function is covered by the cancel_mix / cv_mix oracles and the flow pin of sem_wait.c only",
+           "C05_reason / C05_mode: the guards of st_WSem and the abstract acquire are by construction (stated in the theorem comments); their content is "
+           "outcome in {0, sem_outcome} on every path and the re-acquired mode = entry mode (invariant lt_ok); C05_no_P_after_outcome_pc/_log only restate the loop guard; "
+           "the mode in which nsync_mu_lock_slow_ re-acquires (cv.c:299) is inside CvModel's abstract mutex -- the mu_wait half (C05mu_return over MuWaitModel) models "
+           "the re-acquisition step by step",
+           "'needs no further wake-up' is C05_returns_alone (a wait whose sem_outcome is non-zero and whose waiting flag is clear -- or which is unlinking itself -- run "
+           "ALONE with the mutex free and no other thread in a cv spinlock section returns within 8 steps without any P or V); not covered by a theorem: the spin while "
+           "a waker/unlocker still has to store waiting = 0, and fair-schedule termination under interference (stuck detector, cancel_mix quiescent-state observer)"]
 TRUSTED_BASE = ["Model/MuWaitModel.v / Model/CvModel.v control skeletons validated by lock-step replay"]
 
 
